@@ -20,7 +20,10 @@ def word(w):
         return ''
     if not isinstance(w, list) or any(not isinstance(ch, str) or len(ch) != 1 for ch in w):
         raise MachineryError('not a word: %r' % (w,))
-    return ''.join(w)
+    return PREFIX + ''.join(w)
+
+
+PREFIX = ''     # set by the long-operand stage: one common prefix on every word keeps equality, order and membership
 
 
 def tokens(c):
@@ -211,6 +214,40 @@ def run(ctx):
                 n += 1
     if n != len(work):
         raise MachineryError('replayed %d of %d calls' % (n, len(work)))
+    # in this process, under the order-independence recorder: a sample of the same calls, and the text operators once
+    # more with every word 300 characters longer (one common prefix keeps equality, order and set membership)
+    global PREFIX
+    from oslo_utils import specs_matcher
+    from vf import purity
+    _rec = purity.Recorder(specs_matcher, ['match'], every=1)
+    _rec.__enter__()
+    m = 0
+    for c, want, value, name, spec in work[::max(1, len(work) // 1500)]:
+        judge(ctx, c, want, value, name, spec, observe(specs_matcher.match, value, spec))
+        m += 1
+    longs = 0
+    try:
+        for rec in res.records[::max(1, len(res.records) // 4000)]:
+            c = rec['c']
+            if c['op'] not in STR_OPS + ('', '<or>', '<all-in>') or not all(c['a']) or not (c.get('v') or c.get('vl')) \
+                    or (c['op'] == '<all-in>' and not all(c['vl'])):
+                continue
+            PREFIX = 'k' * (255 + longs % 3) + 'q' * 45
+            o = oracle(c)
+            if ('true' if o else 'false') != rec['ref']:
+                raise MachineryError('a common prefix changed the reference answer for %r' % (c,))
+            for value, name, spec in renderings(c, ['single', 'padded'], False):
+                judge(ctx, dict(c, long_words=len(PREFIX)), rec['ref'], value, name, spec, observe(specs_matcher.match, value, spec))
+                m += 1
+            longs += 1
+    finally:
+        PREFIX = ''
+    if longs < 200:
+        raise MachineryError('vacuity: %d long-operand cases' % longs)
+    _rec.__exit__()
+    _rec.replay(ctx, 'c18')
+    ctx.cov['evaluations'] += m
+    ctx.stage('long-operands', cases=longs, calls=m)
     work = None
     ncases = len(res.records)
     first = res.records[ncases // 2]
